@@ -68,5 +68,16 @@ PROPS = {
         "note": "Corruption that happens to leave the CRC valid is outside the property (the statement requires the CRC to no longer match).",
         "assumptions": ["input channel is eventually closed (finite stream)"],
     },
+    "C20": {
+        "title": "Message-type classification is total and consistent across the library",
+        "design_ref": "DESIGN.md §7 C20",
+        "technique": "Lean 4 proof over tables regenerated from the source (row-by-row decide + symbolic off-key lemma, valid for every integer type) + exhaustive correspondence over all 4098 types",
+        "text": "Kernel-checked theorems over the tables that the extractor regenerates from the current source (MSM4/MSM7 key sets, GetConstellation, getMSMType, the time and start-of-week dispatches, "
+                "the shape of Analyse's switch, the decoder gates, the title table): for EVERY integer message type the classifications agree as the property states. "
+                "The correspondence is complete, not sampled: all 4096 types and both sentinels go through the real functions and a synthetic CRC-valid frame of every type "
+                "through GetMSMHeader/GetMessage/Analyse/String.",
+        "note": "Theorems are about the extracted tables (tie T1) - a table the extractor cannot read becomes `none` and breaks the obligation.",
+        "assumptions": ["the extractor reads the switch statements and map literals faithfully (cross-checked by the exhaustive correspondence)"],
+    },
 }
 NOT_APPLICABLE = {}
